@@ -351,7 +351,7 @@ class Result:
     def violation(self, tag, payload, no_input=False):
         path = self.replay_path(tag)
         with open(path, "w") as f:
-            json.dump(payload, f, indent=1, sort_keys=True)
+            json.dump(payload, f, indent=1, sort_keys=True, default=lambda b: b.decode("latin1") if isinstance(b, bytes) else str(b))
         self.violations.append((path, " no-failing-input-found" if no_input else ""))
 
     def known_finding(self, what):
